@@ -19,7 +19,11 @@ Tie (correspondence, every run, against the library rebuilt from the repository'
  (B) differential relabelling runs of the whole ED chain (h_c18_phys): the same random small model built with the
      original / renamed labels, original / permuted order of addSite calls, both modes; eigenvalues, occupancies,
      double occupancies, <c+_i c_j>, G_ij(i w_n) compared after applying the permutation pi computed from the two
-     index tables (abs+rel 1e-9).  This covers the part of C18 that is not formalised (sem_permute).
+     index tables (abs+rel 1e-9).  G is compared twice: with the library's two drop thresholds set to 0 (no Lehmann term
+     dropped: strict 1e-9), and as the library computes it with the documented truncation allowed for (2e-8 per possible
+     term / |w_n|; which terms fall below 1e-8 depends on the eigenbasis inside degenerate levels, hence on the order
+     of the basis states -- measured: up to 2e-8).  This covers the part of C18 that is only partially formalised
+     (sem_permute_monomial_partial).
 """
 import itertools
 import json
@@ -722,7 +726,9 @@ def common(chk):
                    "orbital and spin counts < 65536 (unsigned short narrowing is outside the model)",
                    "prepare() is called once per IndexClassification object (a second call accumulates IndexSize; not part of the property)",
                    "the operator-level statement `results transform by pi' (sem_permute) is not formalised; it is covered by the differential ED runs only",
-                   "differential runs: real-valued build, models with <= 5 modes, dyadic couplings, tolerance 1e-9 absolute + relative"]
+                   "differential runs: real-valued build, models with <= 5 modes, dyadic couplings, tolerance 1e-9 absolute + relative; "
+                   "G as computed by the library is additionally allowed the documented truncation (terms with |residue| <= 1e-8 dropped: "
+                   "2e-8 * (number of non-zero matrix elements of c_i in the parts) / |w_n| per copy); G with the drop thresholds set to 0 is compared strictly"]
 
 
 def run(chk):
@@ -739,10 +745,11 @@ def run(chk):
                 "1..3 spins, labels from a pool of prefixes / different lengths / bytes >= 0x80 / empty label, 3% repeated labels), a few with "
                 "5..9 sites; both modes each; every case is compared byte for byte with both variants of the extracted model and evaluated "
                 "against the property text; distinct = distinct (mode, call sequence); non-trivial = more than one mode. "
-                "physics: random hermitian models (levels, hoppings, density-density, pair-hopping, occasionally pairing terms) on <= 4 (quick) "
-                "/ 5 (thorough) modes, each built 4-5 times (mode switch, relabelling that reverses the label order, permuted addSite calls, "
+                "physics: random hermitian models (levels, hoppings, density-density, pair-hopping, occasionally pairing terms) on <= 5 "
+                "modes, each built 4-5 times (mode switch, relabelling that reverses the label order, permuted addSite calls, "
                 "all combined) and compared with the base copy through pi; copies whose index table has null entries are not run "
-                "(reported by the index part)")
+                "(reported by the index part); compared: sorted eigenvalues, ground energy, n_i, n_i n_j, <c+_i c_j>, G_ij at n = 0, 1, -1, 2, 7, -12 "
+                "(with and without the documented dropping of small Lehmann terms)")
 
 
 def setup():
